@@ -277,7 +277,7 @@ def _parse_spec(path='/repo/lib/efuns/func_spec.c'):
 
 
 VALUE_EXPRS = ['0', '1', '-1', '7', '2147483647', '(-2147483647 - 1)', '4294967296', '9223372036854775807', '(-9223372036854775807 - 1)',
-               '0.0', '1.5', '-2.5', '1.0e300', '""', '"abc"', '"a b c"', '"%s%d%O"', '"%"', 'repeat_string("xy", 2000)', '"/u/a"', '"0123"', '"ab\\ncd"', '"^(a|b)*$"',
+               '0.0', '1.5', '-2.5', '1.0e300', '""', '"abc"', '"a b c"', '"%s%d%O"', '"%"', 'repeat_string("xy", 2000)', 'repeat_string("long", 2100)', 'repeat_string("v", 8190)', 'repeat_string("w", 20000)', '"/u/a"', '"0123"', '"ab\\ncd"', '"^(a|b)*$"',
                '({ })', '({ 1, 2, 3 })', '({ "a", "b" })', '({ ({ 1 }), ([ ]) })', 'allocate(100)', '({ this_object() })', '({ "b", "a", "b", 3, 1.5 })',
                '"%5s|%-5s|%|5s"', '"%=20s"', '"%#20s"', '"%*d"', '"%@d"', '"%O%O"', '"%c"', '"%5.2f"', '"%020d"', '"%-=30s"', '"%#-40.3s"', '"%^"', '"%:3d"', '"%\'x\'10s"',
                '"("', '"[a-"', '"a{1,"', '"\\\\"', '".*"', '"(a*)*b"', '"%s %d %*s"', 'explode(repeat_string("ab cd ", 30), " ")', '({ "one", "two three", "four\nfive", "" })',
